@@ -44,6 +44,7 @@ func scaleRuns(n int) int {
 
 // candidate violation, from an END record or from a dead child
 type violation struct {
+	OneCPU    bool
 	ChunkFrom int
 	Flavour   string
 	Run       int
@@ -117,7 +118,12 @@ func (cs *checkState) run() int {
 			if to > runs {
 				to = runs
 			}
-			tasks = append(tasks, task{bin, proto.Spec{Prop: cs.prop, Tier: cs.tier, BaseSeed: cs.seed, From: from, To: to, Flavour: f.Flavour}})
+			// children of successive chunks run with GOMAXPROCS 2, 1, 4, 3: results do not depend on it (6.1), code under
+			// test that consults the number of processors sees several values
+			gmp := [...]int{2, 1, 4, 3}[(from/chunk)%4]
+			// every seventh chunk runs pinned to ONE processor (runtime.NumCPU() == 1): a configuration some code special-cases
+			one := (from/chunk)%7 == 3
+			tasks = append(tasks, task{bin, proto.Spec{Prop: cs.prop, Tier: cs.tier, BaseSeed: cs.seed, From: from, To: to, Flavour: f.Flavour, GoMaxProcs: gmp, OneCPU: one}})
 		}
 	}
 	fmt.Printf("verif: built %d flavour(s) in %.1fs; %d chunks\n", len(fl), time.Since(cs.start).Seconds(), len(tasks))
@@ -145,15 +151,15 @@ func (cs *checkState) run() int {
 					e := &r.ends[i]
 					agg.add(t.spec.Flavour, e)
 					if e.Class != "" {
-						viols = append(viols, violation{ChunkFrom: t.spec.From, Flavour: t.spec.Flavour, Run: e.Run, Seed: e.Seed, Class: e.Class, Message: e.Message, Sig: e.Signature, Config: e.Config, Choices: e.Choices})
+						viols = append(viols, violation{OneCPU: t.spec.OneCPU, ChunkFrom: t.spec.From, Flavour: t.spec.Flavour, Run: e.Run, Seed: e.Seed, Class: e.Class, Message: e.Message, Sig: e.Signature, Config: e.Config, Choices: e.Choices})
 						for _, m := range e.More {
-							viols = append(viols, violation{ChunkFrom: t.spec.From, Flavour: t.spec.Flavour, Run: e.Run, Seed: e.Seed, Class: m.Class, Message: m.Message, Sig: m.Signature, Config: e.Config, Choices: e.Choices})
+							viols = append(viols, violation{OneCPU: t.spec.OneCPU, ChunkFrom: t.spec.From, Flavour: t.spec.Flavour, Run: e.Run, Seed: e.Seed, Class: m.Class, Message: m.Message, Sig: m.Signature, Config: e.Config, Choices: e.Choices})
 						}
 					}
 				}
 				for _, d := range r.deaths {
 					agg.addDeath(t.spec.Flavour)
-					viols = append(viols, violation{ChunkFrom: t.spec.From, Flavour: t.spec.Flavour, Run: d.Begin.Run, Seed: d.Begin.Seed, Class: d.Class, Message: d.Note, IsDeath: true})
+					viols = append(viols, violation{OneCPU: t.spec.OneCPU, ChunkFrom: t.spec.From, Flavour: t.spec.Flavour, Run: d.Begin.Run, Seed: d.Begin.Seed, Class: d.Class, Message: d.Note, IsDeath: true})
 				}
 				for _, st := range r.stalls {
 					agg.addStall(st.Class)
@@ -338,10 +344,10 @@ func (cs *checkState) confirmAndWrite(v violation, deadline time.Time) (path str
 		return "", false, err.Error()
 	}
 	rf := proto.ReplayFile{Property: cs.prop, Engine: cs.plan.Engine, Flavour: v.Flavour, Class: v.Class, Message: v.Message, Signature: v.Sig,
-		Seed: v.Seed, Tier: cs.tier, Run: v.Run, Config: v.Config, Choices: v.Choices}
+		Seed: v.Seed, Tier: cs.tier, Run: v.Run, Config: v.Config, Choices: v.Choices, OneCPU: v.OneCPU}
 	if v.IsDeath || rf.Config == nil {
 		// re-run that single run with journalling to learn its configuration and the schedule up to the death
-		r := runChild(bin, proto.Spec{Prop: cs.prop, Tier: cs.tier, BaseSeed: cs.seed, From: v.Run, To: v.Run + 1, Flavour: v.Flavour, Verbose: true}, 10*time.Minute)
+		r := runChild(bin, proto.Spec{Prop: cs.prop, Tier: cs.tier, BaseSeed: cs.seed, From: v.Run, To: v.Run + 1, Flavour: v.Flavour, Verbose: true, OneCPU: v.OneCPU}, 10*time.Minute)
 		switch {
 		case r.trouble != "":
 			return "", false, r.trouble
@@ -465,7 +471,7 @@ func replayClass(bin, path, flavour string) (class, note string) {
 // replayClassWant is replayClass for runs that may end with several violations: if one of them has the
 // class want, that one is returned.
 func replayClassWant(bin, path, flavour, want string) (class, note string) {
-	r := runChild(bin, proto.Spec{Replay: path, Flavour: flavour}, 10*time.Minute)
+	r := runChild(bin, proto.Spec{Replay: path, Flavour: flavour, OneCPU: replayOneCPU(path)}, 10*time.Minute)
 	switch {
 	case r.trouble != "":
 		return "trouble", r.trouble
@@ -484,6 +490,19 @@ func replayClassWant(bin, path, flavour, want string) (class, note string) {
 		return e.Class, e.Message
 	}
 	return "trouble", "no record"
+}
+
+// replayOneCPU reports whether the replay file asks for a child pinned to one processor.
+func replayOneCPU(path string) bool {
+	b, err := os.ReadFile(path)
+	if err != nil {
+		return false
+	}
+	var rf struct {
+		OneCPU bool `json:"one_cpu"`
+	}
+	json.Unmarshal(b, &rf)
+	return rf.OneCPU
 }
 
 func replayCmd(path string) int {
